@@ -208,7 +208,7 @@ def decide(pid, tier, seed, task_results, bounded, t0, design_ref, extra_assumpt
         real = []
         unsure = []
         for o in bad:
-            if o["status"] == "refuted" or ob_key(o["name"]) in base_names:
+            if o["status"] == "refuted" or ob_key(o["name"]) in base_names or o.get("kind") == "exception":
                 real.append(o)
             else:
                 unsure.append(o)
